@@ -146,6 +146,16 @@ def plan(seed, tier):
     njobs = 64 if tier == "quick" else 640
     per = 150 if tier == "quick" else 600
     jobs = []
+    nrestart = 8 if tier == "quick" else 64
+    for j in range(nrestart):
+        jobs.append(
+            {
+                "world": worlds[j % nworlds],
+                "fn": "run_restart_histories",
+                "payload": {"seed": "%s/c07r/%d" % (seed, j), "count": 3 if tier == "quick" else 12, "maxlen": 14},
+                "timeout": 600,
+            }
+        )
     for j in range(njobs):
         jobs.append(
             {
@@ -831,6 +841,220 @@ def run_histories(payload):
 
 
 ###############################################################################
+# RESTART: a crash/restart with only pickles surviving
+
+
+def _phase_a(args):
+    """Run the first segment, then pickle every live handle."""
+    import base64
+    import gc
+    import pickle
+
+    import funsor
+
+    from sim import oracle, seams
+
+    hist = args
+    gc.collect()
+    sim = Sim()
+    sim.inj = seams.CallInjector()
+    sim.inj.install()
+    sim.lines = seams.LineInjector()
+    violation = None
+    try:
+        for ev in hist:
+            if ev["e"] in ("gc_at_line",):
+                continue
+            sim.step(ev)
+            sim.check_I1()
+    except Violation as v:
+        violation = {"invariant": v.invariant, "message": v.message, "fingerprint": v.invariant}
+    survivors = []
+    objs = [h[1] for h in sim.handles]
+    for i, obj in enumerate(objs):
+        try:
+            data = pickle.dumps(obj)
+        except Exception:  # noqa
+            continue
+        same_as = next((j for j in range(i) if objs[j] is obj), None)
+        subterm_of = [j for j, other in enumerate(objs) if other is not obj and isinstance(other, funsor.terms.Funsor) and _contains(other, obj)]
+        survivors.append(
+            {
+                "i": i,
+                "pickle": base64.b64encode(data).decode(),
+                "canon": oracle.canon(obj) if isinstance(obj, funsor.terms.Funsor) else repr(obj),
+                "array_free": not _has_array(obj),
+                "same_as": same_as,
+                "subterm_of": subterm_of,
+            }
+        )
+    return {"violation": violation, "soft": sim.soft[:3], "survivors": survivors, "gensym": seams.get_gensym(), "stats": sim.stats}
+
+
+def _contains(term, sub, depth=0):
+    import funsor
+
+    if depth > 30:
+        return False
+    for v in term._ast_values:
+        for c in v if isinstance(v, (tuple, frozenset)) else (v,):
+            if c is sub:
+                return True
+            if isinstance(c, funsor.terms.Funsor) and _contains(c, sub, depth + 1):
+                return True
+    return False
+
+
+def _find_equal_subterm(term, canon, depth=0):
+    import funsor
+
+    from sim import oracle
+
+    out = []
+    for v in term._ast_values:
+        for c in v if isinstance(v, (tuple, frozenset)) else (v,):
+            if isinstance(c, funsor.terms.Funsor):
+                if oracle.canon(c) == canon:
+                    out.append(c)
+                if depth < 30:
+                    out.extend(_find_equal_subterm(c, canon, depth + 1))
+    return out
+
+
+def restart_main():
+    """Phase B, executed in a *new interpreter* of the same world: unpickle the
+    survivors, check that structure and sharing survived, continue the history."""
+    import base64
+    import gc
+    import pickle
+    import sys
+
+    gc.disable()
+    import funsor
+
+    funsor.set_backend("numpy")
+    from sim import oracle, seams
+
+    seams.world_init()
+    payload = json.loads(sys.stdin.read())
+    gc.collect()
+    baseline = _table_sizes()
+    sim = Sim()
+    sim.inj = seams.CallInjector()
+    sim.inj.install()
+    sim.lines = seams.LineInjector()
+    violation = None
+    stats = {"survivors": 0, "restart_identity_checks": 0, "restart_sharing_checks": 0, "bound_name_coincidences": 0}
+    def body():
+        import re
+
+        back = {}
+        for sv in payload["survivors"]:
+            with funsor.interpretations.reflect:
+                obj = pickle.loads(base64.b64decode(sv["pickle"]))
+            back[sv["i"]] = obj
+            stats["survivors"] += 1
+            if isinstance(obj, funsor.terms.Funsor):
+                got = oracle.canon(obj)
+                if got != sv["canon"]:
+                    raise Violation("I5-restart-structure", "a term unpickled after restart differs structurally: %s vs %s" % (json.dumps(got)[:200], json.dumps(sv["canon"])[:200]))
+            sim.next_handle += 1
+            sim.handles.append([sim.next_handle, obj, "survivor"])
+        for sv in payload["survivors"]:
+            obj = back[sv["i"]]
+            if sv["same_as"] is not None and sv["same_as"] in back and sv["array_free"]:
+                stats["restart_identity_checks"] += 1
+                if back[sv["same_as"]] is not obj:
+                    raise Violation("I5-restart-identity", "two handles to one array-free term unpickle to different objects after restart")
+            if sv["array_free"] and isinstance(obj, funsor.terms.Funsor):
+                for j in sv["subterm_of"]:
+                    if j in back and isinstance(back[j], funsor.terms.Funsor):
+                        stats["restart_sharing_checks"] += 1
+                        for c in _find_equal_subterm(back[j], sv["canon"]):
+                            if c is not obj:
+                                raise Violation(
+                                    "I1-duplicate-live-term",
+                                    "after restart an array-free sub-term and the separately unpickled equal term are different live objects: %s" % _brief(obj),
+                                )
+        sim.check_I1()
+        # bound names of survivors vs. names the restarted counter hands out (monitor only)
+        old_names = set(re.findall(r"[A-Za-z0-9_]+__BOUND_[0-9]+", json.dumps([sv["canon"] for sv in payload["survivors"]])))
+        for ev in payload["history"]:
+            if ev["e"] in ("gc_at_line",):
+                continue
+            sim.step(ev)
+            sim.check_I1()
+        new_names = set()
+        for h in sim.handles:
+            if isinstance(h[1], funsor.terms.Funsor):
+                new_names.update(n for n in re.findall(r"[A-Za-z0-9_]+__BOUND_[0-9]+", repr(h[1])))
+        stats["bound_name_coincidences"] = len(old_names & new_names)
+
+    try:
+        body()
+        sim.quiesce(baseline)
+    except Violation as v:
+        violation = {"invariant": v.invariant, "message": v.message, "fingerprint": v.invariant}
+    out = {"violation": violation, "soft": sim.soft[:3], "stats": dict(sim.stats, **stats)}
+    sys.stdout.write("RESULT " + json.dumps(out) + "\n")
+
+
+def run_restart_histories(payload):
+    import os
+    import subprocess
+    import sys
+
+    from sim.iso import fork_call
+
+    r = W.rng(payload["seed"])
+    pairs = payload.get("pairs")
+    if pairs is None:
+        pairs = [[gen_history(r, payload["maxlen"]), gen_history(r, payload["maxlen"])] for _ in range(payload["count"])]
+    tot = {"runs": 0, "restarts": 0, "survivors": 0, "restart_identity_checks": 0, "restart_sharing_checks": 0, "bound_name_coincidences": 0, "events": 0, "fork_errors": 0}
+    violations = []
+    soft_seen = set()
+    for a, b in pairs:
+        tot["runs"] += 1
+        ra = fork_call(_phase_a, (a,), timeout=60)
+        if ra.get("status") != "ok":
+            tot["fork_errors"] += 1
+            continue
+        ra = ra["res"]
+        tot["events"] += ra["stats"]["events"]
+        for v in ra["soft"]:
+            if v["fingerprint"] not in soft_seen:
+                soft_seen.add(v["fingerprint"])
+                violations.append(dict(v, pair=[a, b]))
+        if ra["violation"]:
+            violations.append(dict(ra["violation"], pair=[a, b]))
+            break
+        p = subprocess.run(
+            [sys.executable, "-c", "from checks import c07; c07.restart_main()"],
+            input=json.dumps({"survivors": ra["survivors"], "history": b}),
+            capture_output=True,
+            text=True,
+            env=os.environ,
+            cwd=W.VERIF_DIR,
+            timeout=120,
+        )
+        line = [l for l in p.stdout.splitlines() if l.startswith("RESULT ")]
+        if p.returncode != 0 or not line:
+            raise RuntimeError("restart interpreter failed: " + (p.stderr or p.stdout)[-1500:])
+        rb = json.loads(line[-1][7:])
+        tot["restarts"] += 1
+        for k in ("survivors", "restart_identity_checks", "restart_sharing_checks", "bound_name_coincidences", "events"):
+            tot[k] += rb["stats"].get(k, 0)
+        for v in rb["soft"]:
+            if v["fingerprint"] not in soft_seen:
+                soft_seen.add(v["fingerprint"])
+                violations.append(dict(v, pair=[a, b]))
+        if rb["violation"]:
+            violations.append(dict(rb["violation"], pair=[a, b]))
+            break
+    return {"violations": violations[:4], "stats": dict(tot, faults={"RESTART": tot["restarts"]}, nontrivial=tot["restarts"]), "digests": [], "sample": None}
+
+
+###############################################################################
 # runner side
 
 
@@ -871,6 +1095,10 @@ def summarize(jobs, results, tier):
         "I5_pickle_identical": tot.get("pickle_identical", 0),
         "pickle_distinct_objects": tot.get("pickle_distinct", 0),
         "array_ids_recycled": tot.get("id_recycled", 0),
+        "restarts_into_a_new_interpreter": tot.get("restarts", 0),
+        "survivors_unpickled_after_restart": tot.get("survivors", 0),
+        "restart_identity_and_sharing_checks": tot.get("restart_identity_checks", 0) + tot.get("restart_sharing_checks", 0),
+        "bound_name_coincidences_after_restart_observed": tot.get("bound_name_coincidences", 0),
         "observed_keyerror_in_membership_window": tot.get("observed_keyerror_window", 0),
         "faults_fired_by_kind": faults,
         "fork_errors": tot.get("fork_errors", 0),
@@ -882,6 +1110,12 @@ def summarize(jobs, results, tier):
 
 
 def minimize(job, violation, test):
+    if violation.get("pair"):
+        j = dict(job, payload=dict(job["payload"], pairs=[violation["pair"]]))
+        for v in test(j):
+            if v.get("invariant") == violation["invariant"]:
+                return j, v
+        return job, violation
     hist = violation.get("history")
     if not hist:
         return job, violation
